@@ -139,8 +139,32 @@ def _worker_main(conn, modname, tier, hashseed_note):
         try:
             res = mod.run_unit(unit, tier)
             conn.send(('ok', idx, res))
-        except BaseException:
-            conn.send(('err', idx, traceback.format_exc()))
+        except BaseException as ex:
+            tb = traceback.format_exc()
+            site = library_site(ex)
+            if site is None:
+                conn.send(('err', idx, tb))
+            else:
+                # the exception was raised *inside the library under test* at a point where the harness had no reason to expect
+                # one (e.g. while warming a cache or computing a reference): on the unchanged tree this does not happen, so it
+                # is a property-relevant failure of the tree, reported as a violation rather than as a harness error
+                acc = Acc()
+                acc.violation('library_exception_outside_oracle', f"{getattr(mod, 'ID', '?')}:library_exception:{type(ex).__name__}@{site}",
+                              {'harness_unit': unit}, got=f"{type(ex).__name__}: {ex}", note=tb[-1500:])
+                conn.send(('ok', idx, acc.result()))
+
+
+def library_site(ex):
+    """file:function of the innermost traceback frame that lies in the library under test, or None"""
+    root = os.path.realpath(REPO) + os.sep
+    site = None
+    tb = ex.__traceback__
+    while tb is not None:
+        fn = os.path.realpath(tb.tb_frame.f_code.co_filename)
+        if fn.startswith(root):
+            site = f"{os.path.relpath(fn, root)}:{tb.tb_frame.f_code.co_name}"
+        tb = tb.tb_next
+    return site
 
 
 class Pool:
